@@ -43,15 +43,16 @@ pub struct State {
     layers: Vec<Option<usize>>,      // user data record position per layer
     cels: Vec<Vec<Option<Option<usize>>>>, // per frame, per layer: None = no cel, Some(rec)
     slices: Vec<Option<usize>>,
-    tags: Option<Vec<Option<usize>>>,
+    /// all tags of all tags chunks in file order: (chunk number, record position)
+    tags: Vec<(usize, Option<usize>)>,
+    tag_chunks: usize,
     sprite: Option<usize>,
     frame: usize,
-    has_tags: bool,
 }
 
 impl State {
     pub fn new() -> State {
-        State { ctx: Ctx::None, layers: vec![], cels: vec![vec![]], slices: vec![], tags: None, sprite: None, frame: 0, has_tags: false }
+        State { ctx: Ctx::None, layers: vec![], cels: vec![vec![]], slices: vec![], tags: vec![], tag_chunks: 0, sprite: None, frame: 0 }
     }
     /// applies a symbol at word position pos; returns false when the word becomes invalid
     pub fn step(&mut self, sym: Sym, pos: usize) -> bool {
@@ -87,12 +88,17 @@ impl State {
                 self.ctx = Ctx::Slice(self.slices.len() - 1);
             }
             Sym::T(n) => {
-                if self.frame != 0 || self.has_tags {
+                // any number of tags chunks, all in the first frame (at most three per word keeps the
+                // enumeration small)
+                if self.frame != 0 || self.tag_chunks >= 3 {
                     return false;
                 }
-                self.has_tags = true;
-                self.tags = Some(vec![None; n as usize]);
-                self.ctx = Ctx::Tag(0, n as usize);
+                let base = self.tags.len();
+                for _ in 0..n {
+                    self.tags.push((self.tag_chunks, None));
+                }
+                self.tag_chunks += 1;
+                self.ctx = Ctx::Tag(base, base + n as usize);
             }
             Sym::P4 | Sym::P11 => self.ctx = Ctx::Sprite,
             Sym::N | Sym::I => {}
@@ -130,7 +136,7 @@ impl State {
                     if k >= n {
                         return false;
                     }
-                    self.tags.as_mut().unwrap()[k] = Some(pos);
+                    self.tags[k].1 = Some(pos);
                     self.ctx = Ctx::Tag(k + 1, n);
                 }
             },
@@ -174,7 +180,8 @@ pub fn build_file(word: &[Sym], seed: u64) -> Option<(Vec<u8>, State)> {
             }
             Sym::S => frames[cur].push(fin(slice_chunk(&Slice { name: format!("s{}", pos), flags: 0, keys: vec![], user_data: None }, &mut None), &mut rng)),
             Sym::T(n) => {
-                let tags: Vec<Tag> = (0..*n).map(|i| Tag { from: 0, to: 0, dir: 0, repeat: 0, name: format!("t{}", i) }).collect();
+                let chunk_no = st.tag_chunks - 1;
+                let tags: Vec<Tag> = (0..*n).map(|i| Tag { from: 0, to: 0, dir: 0, repeat: 0, name: format!("t{}_{}", chunk_no, i) }).collect();
                 frames[cur].push(fin(tags_chunk(&tags, &mut None), &mut rng));
             }
             Sym::P4 => frames[cur].push(fin(legacy_chunk(&LegacyPalette { kind: 4, packets: vec![LegacyPacket { skip: 0, colors: vec![[1, 2, 3]] }] }), &mut rng)),
@@ -271,14 +278,33 @@ pub fn check_word(word: &[Sym], seed: u64) -> Option<CheckResult> {
                 return Err(Failure::new("slice-user-data", format!("word {}: slice {} user data {:?}, expected {:?}", wtxt, i, got, want(seed, *rec))).with(detail()));
             }
         }
-        let tags = st.tags.clone().unwrap_or_default();
-        if f.num_tags() as usize != tags.len() {
-            return Err(Failure::new("structure", "tag count").with(detail()));
+        // tags are identified by name ("t<chunk>_<index>"). With one tags chunk exactly its tags are reported. With
+        // several, a reader may keep all of them or only those of the last chunk (the format says nothing and the
+        // statement does not either); every tag that IS reported carries the record that followed its own chunk at
+        // its own position, and the last chunk's tags are always there.
+        let mut names: Vec<String> = vec![];
+        let mut counters = vec![0usize; st.tag_chunks];
+        for (c, _) in &st.tags {
+            names.push(format!("t{}_{}", c, counters[*c]));
+            counters[*c] += 1;
         }
-        for (i, rec) in tags.iter().enumerate() {
+        let reported: Vec<String> = (0..f.num_tags()).map(|i| f.tag(i).name().to_string()).collect();
+        if st.tag_chunks <= 1 && reported != names {
+            return Err(Failure::new("structure", format!("word {}: tags reported {:?}, expected {:?}", wtxt, reported, names)).with(detail()));
+        }
+        for (k, nm) in names.iter().enumerate() {
+            if st.tags[k].0 + 1 == st.tag_chunks && !reported.contains(nm) {
+                return Err(Failure::new("structure", format!("word {}: tag {} of the last tags chunk is not reported ({:?})", wtxt, nm, reported)).with(detail()));
+            }
+        }
+        for (i, nm) in reported.iter().enumerate() {
+            let k = match names.iter().position(|x| x == nm) {
+                Some(k) if reported.iter().filter(|x| *x == nm).count() == 1 => k,
+                _ => return Err(Failure::new("structure", format!("word {}: reported tags {:?} are not a duplicate-free selection of {:?}", wtxt, reported, names)).with(detail())),
+            };
             let got = ud(f.tag(i as u32).user_data());
-            if got != want(seed, *rec) {
-                return Err(Failure::new("tag-user-data", format!("word {}: tag {} user data {:?}, expected {:?}", wtxt, i, got, want(seed, *rec))).with(detail()));
+            if got != want(seed, st.tags[k].1) {
+                return Err(Failure::new("tag-user-data", format!("word {}: tag {} ({}) user data {:?}, expected {:?}", wtxt, i, nm, got, want(seed, st.tags[k].1))).with(detail()));
             }
         }
         let got = ud(f.sprite_user_data());
